@@ -10,6 +10,7 @@ package compdrv
 import (
 	"context"
 	"fmt"
+	"google.golang.org/grpc/status"
 	"math/rand"
 	"net"
 	"strings"
@@ -483,6 +484,10 @@ func (sv *service) Modify(ms spb.GRIBI_ModifyServer) error {
 	r.byStrm[w] = s
 	r.mu.Unlock()
 	err := sv.n.srv.Modify(w)
+	if r.fault == "dropErrorReason" && err != nil {
+		// the faulty server ends the RPC with the right code but without saying why (no ModifyRPCErrorDetails)
+		err = status.Error(status.Code(err), status.Convert(err).Message())
+	}
 	if s.cur != nil {
 		s.finishMessage(err, true)
 	} else if s.first || true {
